@@ -72,6 +72,8 @@ THEOREMS = [
     "AiuVerif.C11.catSplit_plain",
     "AiuVerif.C11.catSplit_opcat",
     "AiuVerif.C11.category_opcat",
+    "AiuVerif.C11.dataRow_written",
+    "AiuVerif.C11.rowOf_written",
     "AiuVerif.C11.pt_active_formula",
     "AiuVerif.C11.table_lookup_spec",
     "AiuVerif.C11.masked_name_lookup",
@@ -129,9 +131,10 @@ NOT_YET_PROVED = [
     "about the exact ratios)",
     "table parsing from text: modelled (Model/LogParse.lean, compared with the real parser on generated log texts; theorems "
     "parsed_tables_wellformed, first_row_wins, stops_at_autopilot, outside_table_ignored; C11Link.single_table_parse + "
-    "rows_from_empty: a log with one table section yields exactly buildTable / buildCatMap of the rows of its body lines); what "
-    "stays unproved is the character-level statement that `rowOf` of a line WRITTEN for a LogRow gives that row back (compared on "
-    "generated texts); fingerprint matching is not modelled (single table assumed)",
+    "rows_from_empty: a log with one table section yields exactly buildTable / buildCatMap of the rows of its body lines; "
+    "dataRow_written + catSplit_opcat + rowOf_written: a `kernel-opCat<category>` row written with any blanks is read back as "
+    "that key, cycle count and category); rows of the other two shapes (`-NA`, no suffix) are compared on generated texts only; "
+    "fingerprint matching is not modelled (single table assumed)",
     "row order of the CSV (pandas stable sort) is modelled and compared but no theorem is stated about it",
 ]
 LEVEL_TEXT = ("Lean theorems over an executable model of compute_utilization / make_utilization_event / "
